@@ -300,6 +300,45 @@ func runZone(zone string, loc *time.Location, res *workerResult) {
 			}
 		}
 	}
+	// values held in another Location (a fixed zone with an abbreviation this process zone does not know,
+	// and Asia/Tokyo), showing every quarter of an hour of the days around this zone's offset changes
+	// 2020..2026 - wall clocks that do not exist in the process zone among them: the date-time that
+	// comes back shows the same civil fields
+	{
+		foreign := []*time.Location{time.FixedZone("XYZ", 9*3600)}
+		if tokyo, err := time.LoadLocation("Asia/Tokyo"); err == nil && zone != "Asia/Tokyo" {
+			foreign = append(foreign, tokyo)
+		}
+		var n int64
+		for day := time.Date(2020, 1, 1, 12, 0, 0, 0, time.UTC); day.Year() < 2027; day = day.AddDate(0, 0, 1) {
+			y, m, d := day.Date()
+			_, o0 := time.Date(y, m, d, 0, 0, 0, 0, loc).Zone()
+			_, o1 := time.Date(y, m, d+1, 0, 0, 0, 0, loc).Zone()
+			if o0 == o1 {
+				continue
+			}
+			for _, fl := range foreign {
+				for q := 0; q < 96; q++ {
+					v := time.Date(y, m, d, q/4, (q%4)*15, 0, 0, fl)
+					want := civil(v)
+					got, enc, f := roundTrip("DateTime", types.DateTime(v))
+					n++
+					c := dtCase{zone, v.Unix()}
+					if f != nil {
+						violation(f.key+"/held-in-another-location", func() string {
+							return fmt.Sprintf("zone %s, value %s held in %s: %s", zone, v.Format("2006-01-02 15:04:05 MST"), fl, f.what())
+						}, "datetime", c)
+						continue
+					}
+					if g := civil(time.Time(got)); g != want {
+						R.Violation("C14/DateTime.UnmarshalJSON/held-in-another-location/wrong-civil-time", fmt.Sprintf("zone %s: %s (a value held in %s) decodes to %v, the text says %v", zone, enc, fl, g, want), "datetime", c)
+					}
+				}
+			}
+		}
+		res.Evaluations += n
+		res.Distinct += n
+	}
 	// the zero value in this zone
 	got, enc, f := roundTrip("DateTime", types.DateTime{})
 	if f != nil {
